@@ -55,7 +55,14 @@ def gen_align(rng, tier):
     restr = [[rng.randrange(ns), rng.randrange(ne)] for _ in range(n_r)]
     if restr and rng.random() < 0.3:
         restr.append(list(restr[0]))
-    return {"mode": "align", "start": start, "end": end, "restraints": restr, "ignore_h": rng.random() < 0.6,
+    reuse = None
+    if rng.random() < 0.25:
+        # an Alignment that has already aligned ANOTHER pair (other sizes, hydrogens elsewhere) is emptied and re-used
+        o_ns, o_ne = rng.randint(2, hi), rng.randint(2, hi)
+        reuse = {"start": gen.mol_spec(rng, "OLD", o_ns, p_hydrogen=rng.choice([0.3, 0.6])),
+                 "end": gen.mol_spec(rng, "OLD", o_ne, p_hydrogen=rng.choice([0.3, 0.6])),
+                 "ignore_h": rng.random() < 0.8}
+    return {"mode": "align", "reuse": reuse, "start": start, "end": end, "restraints": restr, "ignore_h": rng.random() < 0.6,
             "deform": rng.choice([None, [0], [0, 1], [1, 0, 2] if min(ns, ne) >= 2 else [0, 1]]),
             "as_tuples": rng.random() < 0.5}
 
@@ -73,7 +80,9 @@ def gen_guess(rng, tier):
 
 
 def gen_manager(rng, tier):
-    species, text, instances = system_engine.gen_world(rng, tier)
+    species, text, instances, _large = system_engine.gen_world(rng, tier)
+    if _large:
+        return gen_align(rng, tier)
     present = sorted({i["species"] for i in instances})
     if not present:
         return gen_align(rng, tier)
@@ -165,7 +174,25 @@ def exec_align(trace, ctx):
                       "n_steps": n_steps, "bonds": mol2_bonds_info})
         return np.array(mol2_positions, copy=True)
 
-    ali = Alignment(start, end)
+    if trace.get("reuse"):
+        ru = trace["reuse"]
+        ali = Alignment(gen.make_molecule(ru["start"]), gen.make_molecule(ru["end"]))
+        old_sf0 = Alignment.STEPS_FACTOR
+        Alignment.STEPS_FACTOR = 1
+        try:
+            with patched(A, "minimize_molecules", lambda m1, m2, *a, **k: np.array(m2, copy=True)):
+                ali.align_molecules(restrictions=[(0, 0)], ignore_hydrogens=ru["ignore_h"])
+        except Exception:
+            pass
+        finally:
+            Alignment.STEPS_FACTOR = old_sf0
+        ali.start = None
+        ali.end = None
+        ali.start = start
+        ali.end = end
+        ctx.probe("alignment_object_reused_for_another_pair")
+    else:
+        ali = Alignment(start, end)
     restr = [tuple(r) if trace["as_tuples"] else list(r) for r in trace["restraints"]]
     given = [tuple(r) for r in trace["restraints"]]
     old_sf = Alignment.STEPS_FACTOR
